@@ -44,6 +44,24 @@ CHECKS = {
              "Trusted: TLC, the 60-line renderer in tools/props/c03.py, gcc as linker.",
         technique="TLA+ reference semantics (TLC enumeration) + spec-to-implementation replay",
         ref="DESIGN.md section 4 C03"),
+    "C04": dict(
+        engine="Layout/Memory/Comptime",
+        category="model_checking",
+        text="Comptime.tla is a two-phase machine: while compiling, the block is evaluated exactly "
+             "once (its side effect goes to the compiler's output, its value becomes a constant); "
+             "while running, the program observes that constant. Values and byte images are "
+             "Memory.tla's (integers, floats, bool, structs with padding, arrays, enums, "
+             "optionals, error unions, all-bytes structs) plus char, str (pointee bytes) and "
+             "type. TLC checks `the comptime value is what the run-time twin computes` and `the "
+             "effect happens once, at compile time` on every behaviour and emits the images. "
+             "Every behaviour is replayed with the block used as a local, as a global, nested in "
+             "another comptime block, computing through a function, with a putchar side effect "
+             "(the harness records what the compiler itself printed), and as its run-time twin.",
+        note="quick: 44 types x 2 values x 6 forms (510 behaviours). Known finding F04 (str). "
+             "Trusted: TLC, Layout.tla's layout operators (C17), the renderer in "
+             "tools/props/c04.py, gcc as linker.",
+        technique="TLA+ two-phase machine (TLC invariants + enumeration) + spec-to-implementation replay",
+        ref="DESIGN.md section 4 C04"),
     "C05": dict(
         engine="Scopes",
         category="model_checking",
